@@ -565,6 +565,45 @@ def cell_steps(prog, body, bb, env, depth=0, _stmts_only=False):
                     env[dst["l"]] = frozenset(1 - x for x in a0)  # None(0) -> Break(1), Some(1) -> Continue(0)
             elif dec in _VARIANT_KEEPING and a0 is not None:
                 env[dst["l"]] = a0
+            elif dec in ("core::cmp::PartialEq::eq", "core::cmp::PartialEq::ne") and a0 is not None and len(t.get("args") or []) == 2:
+                # `x == Enum::FieldlessVariant` (derived PartialEq): true exactly when the discriminants agree
+                k = None
+                for aop in (t["args"][1],):
+                    kc = op_const(aop)
+                    cur_ = op_place(aop)
+                    for _hop in range(4):
+                        if kc is not None or cur_ is None:
+                            break
+                        dds = body.defs.get(cur_["l"], [])
+                        if len(dds) != 1 or dds[0].si is None or dds[0].node["k"] != "assign":
+                            break
+                        rv_ = dds[0].node["rv"]
+                        if rv_["k"] == "use":
+                            kc = op_const(rv_["ops"][0])
+                            cur_ = op_place(rv_["ops"][0])
+                        elif rv_["k"] == "ref":
+                            cur_ = rv_["place"]
+                        else:
+                            break
+                    if kc is not None and kc.get("variant") and kc.get("enum") and "payload" not in kc:
+                        adt_ = prog.adt(kc["enum"]) if hasattr(prog, "adt") else None
+                        if adt_ is None:
+                            for tg in getattr(prog, "adts_by_target", {}).values():
+                                adt_ = adt_ or tg.get(kc["enum"])
+                        if adt_:
+                            for v_ in adt_["variants"]:
+                                if v_["name"] == kc["variant"] and not v_.get("fields"):
+                                    k = v_["idx"]
+                if k is not None:
+                    if a0 == frozenset([k]):
+                        res_ = frozenset([1])
+                    elif k not in a0:
+                        res_ = frozenset([0])
+                    else:
+                        res_ = frozenset([0, 1])
+                    if dec.endswith("::ne"):
+                        res_ = frozenset(1 - x for x in res_)
+                    env[dst["l"]] = res_
             elif c is not None and depth <= 1:
                 tgt = prog.body_for_callee(c, body)
                 if tgt is not None and tgt.kind != "closure":
